@@ -9,7 +9,7 @@ TIERS = {
     'thorough': {'runs': 40000, 'opts': {'length': [40, 120], 'pairs': True}, 'chunk': 50, 'time_cap': 1500},
 }
 RULE = ('seeded histories of public torchtt calls over a heap of <=12 live, aliasing TT objects (order<=4, sizes<=4, '
-        'creation ranks<=3); evaluations = executed history steps; a case is distinct by (operation, structure of every '
+        'creation ranks<=3); 30% of steps run under a line-event pre-emption observer, 12% of SVD-using steps under a primary-SVD failure plan; evaluations = executed history steps; a case is distinct by (operation, structure of every '
         'operand: kind/core shapes/dtype, outcome class) and non-trivial because every counted step executed library code '
         'on heap-derived operands')
 ASSUMPTIONS = ['single-threaded BLAS (pinned) so that runs are bit-reproducible',
